@@ -172,6 +172,18 @@ class Ctx:
                     vk = v.__dict__.get("_cls") if isinstance(v, _oe.Obj) and set(v.__dict__) != {"_cls"} else None
                     return vk is not None and any(k_.__dict__["_cls"] in prog.mro(vk) for k_ in ks)
                 return _oe.NOT_MODELLED
+            if isinstance(call.func, _ast.Name) and call.func.id in ("len", "str", "bool") and len(call.args) == 1 and not call.keywords and call.func.id not in ev.env and depth < max_depth:
+                # len(x) / str(x) / bool(x) on a class-tagged model object: the class's own __len__ / __str__ / __bool__
+                try:
+                    v = ev.ev(call.args[0])
+                except _oe.Unsupported:
+                    return _oe.NOT_MODELLED
+                if isinstance(v, _oe.Obj) and "_cls" in v.__dict__ and set(v.__dict__) != {"_cls"}:
+                    dm = prog.find_method(v.__dict__["_cls"], {"len": "__len__", "str": "__str__", "bool": "__bool__"}[call.func.id])
+                    if dm is not None:
+                        fake = _ast.copy_location(_ast.Call(func=_ast.Attribute(value=call.args[0], attr=dm.name, ctx=_ast.Load()), args=[], keywords=[]), call)
+                        return run_method(dm, v, fake, ev, depth)
+                return _oe.NOT_MODELLED
             cls_standin = ev.env.get(call.func.id) if isinstance(call.func, _ast.Name) else None
             if depth < max_depth and isinstance(cls_standin, _oe.Obj) and set(cls_standin.__dict__) == {"_cls"}:
                 # cls(...) inside a class method: `cls` is the class stand-in the method was entered with
